@@ -10,7 +10,7 @@ META = {
     "text": "spec/TermGraph.tla defines term graphs (a store of N nodes: variable, variable chain, atoms a/b, f/1, g/2, list cell, "
             "partial-string segment, with arbitrary edges, so cycles through structures, lists, strings and chains occur) and the "
             "meaning of ==, compare/3, =, acyclic_term/1, ground/1, term_variables/2 and copy_term/2 on the rational trees they "
-            "denote (bisimilarity as greatest fixpoint, union-find unification, limit of the truncated standard-order comparisons, "
+            "denote (bisimilarity as greatest fixpoint, union-find unification, first difference in preorder for the standard order, "
             "reachability). TLC enumerates every graph with up to 3 nodes up to isomorphism (thorough: every labelled graph with up "
             "to 3 nodes and a sample of the 4-node graphs), checks operator sanity on each (Bisimilar is an equivalence, acyclic iff "
             "the unfolding is finite, compare gives = iff bisimilar and is antisymmetric, copies are fresh variants, unification "
@@ -20,7 +20,7 @@ META = {
     "note": "Trusted: TLC, the renderer of equation sets, the Prolog observation harness (helpers consulted into user; results are "
             "projected to integers/atoms inside the query, cyclic terms never leave the machine). Not asserted because the "
             "infinite-tree reading does not define it: the order of term_variables/2 on cyclic terms (the set is asserted), "
-            "compare/3 where the truncated comparisons do not converge (only 'not =' is asserted), the relative order of distinct "
+            "compare/3 where no first difference in preorder exists (infinite leftmost descent; only 'not =' is asserted), the relative order of distinct "
             "variables (taken from the run). Bit-level identity of the heap cells is not observed (no hook); 'unchanged' means all "
             "observations are unchanged. Termination: each case has 5 s (normal: milliseconds).",
     "technique": "TLA+ value-level specification on term graphs enumerated by TLC; vectors replayed into the real heap (spec -> impl)",
@@ -198,7 +198,7 @@ def diff_obs(v, vo_entry, got, rnd):
                 good = (g_ in ("<", ">")) if e == "?" else (g_ == e)
                 if not good and g_ != "x":
                     out.append(("compare", "%s: compare(O,X%d,X%d) expected %s got %r" % (
-                        rnd, a, b, "< or > (no limit)" if e == "?" else e, g_)))
+                        rnd, a, b, "< or > (no first difference)" if e == "?" else e, g_)))
     return out
 
 
@@ -464,7 +464,7 @@ def run(tier):
     rep.extra["graphs"] = len(vecs)
     rep.extra["cyclic_graphs"] = sum(1 for v in vecs if any(not u["ac"] for u in v["un"]))
     rep.extra["graphs_with_partial_strings"] = sum(1 for v in vecs if any(nd["k"] == "s" for nd in v["g"]))
-    rep.extra["compare_pairs_without_limit"] = sum(1 for v in vecs for c in v["cmp"][0]["c"] if c[0] == "?")
+    rep.extra["compare_pairs_without_first_difference"] = sum(1 for v in vecs for c in v["cmp"][0]["c"] if c[0] == "?")
     rep.extra["cases_failing"] = len(fails0)
     rep.assumptions = ["TLC", "spec/TermGraph.tla (infinite-tree reading)", "Prolog observation helpers",
                        "equation-set rendering", "watchdog interrupt of the harness (tmo_ms)"]
